@@ -29,6 +29,18 @@ type c16Case struct {
 	// be cut off by the timeout of the DATA command, which is over). Wall-clock
 	// is only the trigger; on a correct client nothing is armed while it waits.
 	SlowMs int `json:"slow_ms,omitempty"`
+	// Prior: an earlier message on the same connection, to PriorRcpts
+	// recipients, with its own verdict; in LMTP mode sent through Data()
+	// (no status callback) when PriorPlainData is set.
+	Prior          bool             `json:"prior,omitempty"`
+	PriorVerdict   harness.Decision `json:"prior_verdict"`
+	PriorRcpts     int              `json:"prior_rcpts,omitempty"`
+	PriorPlainData bool             `json:"prior_plain_data,omitempty"`
+	// LimitSlack >= 0 with Limited: the server's MaxMessageBytes is the length
+	// of the message as it must arrive plus LimitSlack - it fits, so nothing
+	// changes (the dots added on the wire do not count).
+	Limited    bool `json:"limited,omitempty"`
+	LimitSlack int  `json:"limit_slack,omitempty"`
 }
 
 // c16Normalise is the reference: bare LF becomes CRLF and a final CRLF is
@@ -57,13 +69,54 @@ func c16Run(c c16Case) Verdict {
 		script.Rcpt = append(script.Rcpt, d)
 	}
 	script.Data = []harness.DataPlan{{Read: harness.ReadPlan{Limit: -1}, Result: c.Verdict, Honest: true}}
-	r := harness.NewRig(harness.Config{LMTP: c.LMTP}, script)
+	cfg := harness.Config{LMTP: c.LMTP}
+	if c.Limited {
+		cfg.MaxMessageBytes = int64(len(c16Normalise(c.Body)) + c.LimitSlack)
+	}
+	const priorBody = "Subject: earlier\r\n\r\n.dot line\r\n"
+	if c.Prior {
+		if c.PriorRcpts < 1 {
+			c.PriorRcpts = 1
+		}
+		script.Rcpt = append(make([]harness.Decision, c.PriorRcpts), script.Rcpt...)
+		script.Data = append([]harness.DataPlan{{Read: harness.ReadPlan{Limit: -1}, Result: c.PriorVerdict, Honest: true}}, script.Data...)
+		if cfg.MaxMessageBytes > 0 && cfg.MaxMessageBytes < int64(len(priorBody)) {
+			cfg.MaxMessageBytes = 0
+		}
+	}
+	r := harness.NewRig(cfg, script)
+	var priorErr error
 	var closeErr, close2Err, noopErr, setupErr error
 	var consumed1, consumed2 int64
 	var wantRcpts []string
 	ok := withClient(r, c.LMTP, func(cl *smtp.Client, w *harness.Wire) {
 		if c.SlowMs > 0 {
 			cl.CommandTimeout = time.Duration(c.SlowMs) * time.Millisecond / 2
+		}
+		if c.Prior {
+			if err := cl.Mail("prior@x", nil); err != nil {
+				setupErr = err
+				return
+			}
+			for i := 0; i < c.PriorRcpts; i++ {
+				if err := cl.Rcpt(fmt.Sprintf("p%d@x", i), nil); err != nil {
+					setupErr = err
+					return
+				}
+			}
+			var pw io.WriteCloser
+			var err error
+			if c.LMTP && !c.PriorPlainData {
+				pw, err = cl.LMTPData(func(rcpt string, status *smtp.SMTPError) {})
+			} else {
+				pw, err = cl.Data()
+			}
+			if err != nil {
+				setupErr = err
+				return
+			}
+			io.WriteString(pw, priorBody)
+			priorErr = pw.Close()
 		}
 		if err := cl.Mail("sender@x", nil); err != nil {
 			setupErr = err
@@ -150,8 +203,33 @@ func c16Run(c c16Case) Verdict {
 	if c.SlowMs > 0 {
 		v.Classes = append(v.Classes, "slow_producer")
 	}
+	if c.Limited {
+		v.Classes = append(v.Classes, fmt.Sprintf("size_limit_slack_%d", c.LimitSlack))
+	}
 	evs := r.B.Events()
 	des := dataEvents(evs)
+	if c.Prior {
+		v.Classes = append(v.Classes, "after_earlier_message")
+		if len(des) < 1 {
+			return failf("data-calls", "the earlier message was not delivered: %s", traceString(evs))
+		}
+		// the earlier message's verdict (SMTP, or LMTP without callback where
+		// every recipient shares it)
+		if !c.LMTP || c.PriorPlainData {
+			if (priorErr == nil) != c.PriorVerdict.OK() {
+				return failf("verdict", "earlier message: backend returned %+v but Close returned %v", c.PriorVerdict, priorErr)
+			}
+		}
+		// keep what belongs to the judged message
+		cut := des[0].Seq
+		var kept []harness.Event
+		for _, e := range evs {
+			if e.Seq > cut {
+				kept = append(kept, e)
+			}
+		}
+		evs, des = kept, des[1:]
+	}
 	if len(des) != 1 {
 		return failf("data-calls", "expected exactly one delivery, got %d: %s", len(des), traceString(evs))
 	}
@@ -270,6 +348,13 @@ func c16Gen(t *rapid.T) c16Case {
 	for i := 0; i < nr; i++ {
 		c.Rcpts = append(c.Rcpts, i == 0 || rapid.IntRange(0, 3).Draw(t, "acc") != 0)
 	}
+	if rapid.IntRange(0, 3).Draw(t, "prior") == 0 {
+		c.Prior, c.PriorVerdict, c.PriorRcpts = true, c16GenVerdict(t), rapid.IntRange(1, 3).Draw(t, "prior_rcpts")
+		c.PriorPlainData = rapid.Bool().Draw(t, "prior_plain")
+	}
+	if rapid.IntRange(0, 2).Draw(t, "limited") == 0 {
+		c.Limited, c.LimitSlack = true, rapid.IntRange(0, 2).Draw(t, "slack")
+	}
 	return c
 }
 
@@ -287,7 +372,7 @@ func init() {
 
 func TestC16(t *testing.T) {
 	registerAll()
-	st.Rule = "cases = (body with CR only inside CRLF, partition into Write calls, server verdict accept/SMTPError/plain error, SMTP/LMTP, 1-3 recipients some refused at RCPT, Close once or twice then Noop); exhaustive part: all words over the tokens {'.', LF, CRLF, 'x'} up to the length bound, each in one write, every 2-split and byte by byte; oracle = LF->CRLF normalisation function; non-trivial = body with a line-start dot / bare LF / end-marker look-alike written in more than one Write; distinct = hash of the whole case"
+	st.Rule = "cases = (body with CR only inside CRLF, partition into Write calls, server verdict accept/SMTPError/plain error, SMTP/LMTP, 1-3 recipients some refused at RCPT, Close once or twice then Noop, optional earlier message on the connection with its own verdict, optional server size limit that the message just fits); exhaustive part: all words over the tokens {'.', LF, CRLF, 'x'} up to the length bound, each in one write, every 2-split and byte by byte; oracle = LF->CRLF normalisation function; non-trivial = body with a line-start dot / bare LF / end-marker look-alike written in more than one Write; distinct = hash of the whole case"
 	if !regress(t, "C16") {
 		return
 	}
@@ -331,6 +416,9 @@ func TestC16(t *testing.T) {
 				c := c16Case{Body: body, Splits: sp, Rcpts: []bool{true}, LMTP: (idx+vi)%5 == 0, CloseTwice: (idx+vi)%3 == 0}
 				if (idx+vi)%4 == 0 {
 					c.Verdict = harness.Decision{Kind: "smtp", Code: 554, Enh: [3]int{5, 6, 0}, Msg: "message refused"}
+				}
+				if (idx+vi)%2 == 1 {
+					c.Limited = true // the message fits exactly
 				}
 				if !c16Words.one(t, c) {
 					complete = false
